@@ -11,7 +11,8 @@ for log in sys.argv[1:]:
         line = line.strip()
         m = re.match(r"=== (C\d+)/(\d)", line)
         if m:
-            k = int(m.group(2)) + (2 if "val2" in os.path.basename(log) else 4 if "val3" in os.path.basename(log) else 0)
+            b = os.path.basename(log)
+            k = int(m.group(2)) + (2 if "val2" in b else 4 if "val3" in b else 6 if "val4" in b else 0)
             cur = "%s-%d" % (m.group(1), k); val.setdefault(cur, {})
         elif cur and line.startswith("DEMO"):
             val[cur]["demo"] = line
@@ -21,7 +22,8 @@ manual = json.load(open(os.path.join(ROOT, "tools", "seeded_manual.json"))) if o
 for sid, r in sorted(res.items()):
     prop, k = sid.split("-")
     src = ("/var/tmp/mut-out/%s/%s" % (prop, k) if int(k) <= 2 else
-           "/var/tmp/mut-out2/%s/%d" % (prop, int(k) - 2) if int(k) <= 4 else "/var/tmp/mut-out3/%s/%d" % (prop, int(k) - 4))
+           "/var/tmp/mut-out2/%s/%d" % (prop, int(k) - 2) if int(k) <= 4 else
+           "/var/tmp/mut-out3/%s/%d" % (prop, int(k) - 4) if int(k) <= 6 else "/var/tmp/mut-out4/%s/%d" % (prop, int(k) - 6))
     if not os.path.isdir(src):
         continue
     dst = os.path.join(ROOT, "seeded", sid)
